@@ -269,6 +269,24 @@ PROPS = {
                     'oopt_gnpy_libyang validation (used as is by the bounded stand-in)'],
         'extra': [{'name': 'yang_roundtrip', 'kind': 'bounded', 'script': 'bounded/yang_roundtrip.py', 'timeout': 2400}],
     },
-    'C19': {'level': 'other', 'claim': 'uc', 'level_note': 'uc', 'trusted': [], 'not_applicable': 'under construction'},
+    'C19': {
+        'level': 'other',
+        'claim': 'Proved on the real code: ResultElement.path_properties reports, per direction, the eleven metrics of that '
+                 'direction\'s own receiver (means, min and max of GSNR/OSNR rounded to 0.01 dB, the three penalties, reference '
+                 'power, bandwidth); detailed_path_json lists the route hop by hop with consecutive indices, the assigned N/M '
+                 'labels after every hop and the transponder type and mode after each transceiver, and emits no label for a '
+                 'blocked request (labels left on a blocked request raise ServiceError); pathresult puts the id and, for the '
+                 'seven blocking reasons, the reason - without path properties for the no-path family, with an unlabelled route '
+                 'otherwise; get_penalty_from_receiver; requests_aggregation (two requests, no disjunction) merges exactly '
+                 'identical requests with a mode and sums bandwidth and slot lists. The statement over whole batches and the '
+                 'CSV export are a bounded stand-in through the real planning() / results_to_json / jsontocsv.',
+        'level_note': 'NOT an unbounded proof: paths have three elements and slot lists length two in the contracts (all values '
+                      'symbolic); the joined id of an aggregated request, the infinite-penalty text and jsontocsv (csv writer, '
+                      'string formatting) are only checked bounded; bounded: ring3, mesh4[, ring4, full4] + ring3 with the '
+                      'OpenROADM v5 library (penalties), 16 request kinds in 10 batches, every figure compared with the receivers '
+                      'and with the same request planned alone',
+        'trusted': NUMPY_TRUST + ['builtin round / min / max', 'numpy.mean = sum / n'],
+        'extra': [{'name': 'response', 'kind': 'bounded', 'script': 'bounded/response.py', 'timeout': 2400}],
+    },
     'C20': {'level': 'other', 'claim': 'uc', 'level_note': 'uc', 'trusted': [], 'not_applicable': 'under construction'},
 }
